@@ -721,6 +721,82 @@ def _real_pow(base, e):
 # elementary functions
 # --------------------------------------------------------------------------
 
+def _numden_term(t, memo):
+    """z3 real term -> (numerator, denominator|None) without division"""
+    from .solve import _numden
+    return _numden(t, memo)
+
+
+def _reduce_sqrt_squares(poly, prims, c, depth=0):
+    """replace (sqrt var)^2 by the polynomial it is the root of (when that is a polynomial)"""
+    changed = True
+    guard = 0
+    while changed and guard < 32:
+        changed = False
+        guard += 1
+        out = {}
+        for mono, coef in poly.items():
+            hit = None
+            for pid in set(mono):
+                if mono.count(pid) >= 2:
+                    t = prims.get(pid)
+                    if t is None or t.num_args() != 0:
+                        continue
+                    d = c.defs.get(str(t))
+                    if d is not None and d[0] == 'sqrt':
+                        hit = (pid, d[1])
+                        break
+            if hit is None:
+                out[mono] = out.get(mono, 0) + coef
+                continue
+            pid, xterm = hit
+            n, dd = _numden_term(z3.simplify(xterm), {})
+            if dd is not None:
+                out[mono] = out.get(mono, 0) + coef
+                continue
+            xp, xprims = _poly(n, c, for_trig=False)
+            prims.update(xprims)
+            rest = list(mono)
+            rest.remove(pid)
+            rest.remove(pid)
+            rest = tuple(rest)
+            for m2, c2 in xp.items():
+                m = tuple(sorted(rest + m2))
+                out[m] = out.get(m, 0) + coef * c2
+            changed = True
+        poly = {m: v for m, v in out.items() if v != 0}
+    return poly
+
+
+def _sqrt_is_rational_const(x, c):
+    """sqrt(N/D) where, after replacing squares of earlier square-root variables by
+    their radicands, N = k^2 D for a rational k: returns k, else None.  (Covers
+    re-normalising an already normalised vector.)"""
+    try:
+        n, d = _numden_term(z3.simplify(x.term()), {})
+        if d is None:
+            return None
+        pn, prims = _poly(n, c, for_trig=False)
+        pd, prims2 = _poly(d, c, for_trig=False)
+        prims.update(prims2)
+        pn = _reduce_trig(_reduce_sqrt_squares(pn, prims, c), c)
+        pd = _reduce_trig(_reduce_sqrt_squares(pd, prims, c), c)
+        if not pn or not pd or set(pn) != set(pd):
+            return None
+        ratios = {pn[m] / pd[m] for m in pn}
+        if len(ratios) != 1:
+            return None
+        k2 = ratios.pop()
+        if k2 <= 0:
+            return None
+        a, b = math.isqrt(k2.numerator), math.isqrt(k2.denominator)
+        if a * a == k2.numerator and b * b == k2.denominator:
+            return Fraction(a, b)
+    except Exception:
+        return None
+    return None
+
+
 def sym_sqrt(x):
     if isinstance(x, SymC):
         return x.sqrt()
@@ -742,6 +818,11 @@ def sym_sqrt(x):
     hit = c.bases.get(key)
     if hit is not None:
         return hit
+    k = _sqrt_is_rational_const(x, c)
+    if k is not None:
+        out = SymR(k)
+        c.bases[key] = out
+        return out
     _assume_defined(x.term() >= 0, "sqrt: argument >= 0")
     r = c.fresh('sqrt')
     c.add_axiom(r >= 0)
